@@ -187,3 +187,62 @@ func clipHex(b []byte) string {
 	}
 	return fmt.Sprintf("%x", b)
 }
+
+// c01DemuxAfterCancel: a client behind a demultiplexer (keyed by source, one Serve per key). The
+// application cancels the client's key between two calls (it may do so at any time: an idle-timeout
+// policy, an operator): the NEXT unary call of that client is a first use of the key again — a fresh
+// logical connection is announced and served — and gets its handler's reply like any other.
+func c01DemuxAfterCancel(r *Run) {
+	if !r.Want("demuxcancel") {
+		return
+	}
+	for rep, reps := 0, r.Scale(2, 20); rep < reps && r.NumViolations() <= 4; rep++ {
+		in := map[string]any{"topology": "client-demux-server", "rep": rep}
+		r.Progress("demuxcancel", in)
+		ce, se := NewPipe(256, rep%2 == 0, nil)
+		impl := &Impl{}
+		impl.SetUnary(func(ctx context.Context, req []byte) ([]byte, error) { return unaryF(req), nil })
+		srv := goat.NewServer("srv")
+		srv.RegisterService(&echoDesc, impl)
+		ctx, cancel := context.WithCancel(context.Background())
+		var serving sync.WaitGroup
+		dm := goat.NewDemux(ctx, se, func(e *Rpc) string { return e.GetHeader().GetSource() }, func(rw goat.RpcReadWriter) {
+			serving.Add(1)
+			defer serving.Done()
+			srv.Serve(ctx, rw)
+		})
+		ran := make(chan struct{})
+		go func() { defer close(ran); dm.Run() }()
+		cc := goat.NewClientConn(ce, "c0", "srv")
+		ok := true
+		call := func(what string) bool {
+			req := []byte(fmt.Sprintf("dc-%d-%s", rep, what))
+			cctx, ccancel := context.WithTimeout(context.Background(), hangTimeout)
+			got, err := callUnary(cctx, cc, req)
+			ccancel()
+			r.Count("demuxcancel.calls")
+			if err != nil || string(got) != string(unaryF(req)) {
+				r.Violate("demuxcancel.none", "ops", "a unary call did not get its handler's reply ("+what+")", in, fmt.Sprintf("reply=%x err=%v", got, err), fmt.Sprintf("%x", unaryF(req)))
+				return false
+			}
+			return true
+		}
+		ok = call("before any cancel")
+		for k := 0; k < 3 && ok; k++ {
+			dm.Cancel("c0")
+			ok = call(fmt.Sprintf("first call after Cancel #%d", k+1)) && call(fmt.Sprintf("second call after Cancel #%d", k+1))
+		}
+		r.Eval(fmt.Sprintf("demuxcancel/%d", rep), true)
+		srv.Stop()
+		dm.Stop()
+		cancel()
+		ce.FailRead(io.ErrClosedPipe)
+		se.FailRead(io.ErrClosedPipe)
+		se.FailWrite(io.ErrClosedPipe)
+		cc.Close()
+		within(hangTimeout, func() { <-ran; serving.Wait() })
+		if !ok {
+			return
+		}
+	}
+}
